@@ -49,6 +49,7 @@ def execute(prop, tier, seed, sc, topo, disconnect=False):
     for x in scheds:
         x["disconnect"] = -1
         x["late"] = {}
+        x["splittimer"] = 0
     # late expiry: the timeout elapses in real time after some verdicts were delivered and before the write is decided
     late = []
     for x in scheds:
@@ -61,6 +62,9 @@ def execute(prop, tier, seed, sc, topo, disconnect=False):
             if vs and "deny" not in verd and len(verd) < len(x["verdict"][w]) and all(v == "approve" for v in verd):
                 late.append(dict(x, late={w: True}))
     scheds += rnd.sample(late, min(len(late), 60 if quick else 600))
+    # split timer: the steps that follow a timer callback in the schedule run while the callback is inside its send
+    split = [dict(x, splittimer=k) for x in scheds for k in (1, 2) if not x["late"] and any(n.startswith("t:") and i + k < len(x["sched"]) + 1 and i + 1 < len(x["sched"]) for i, n in enumerate(x["sched"]))]
+    scheds += rnd.sample(split, min(len(split), 150 if quick else 1500))
     if disconnect:
         d = [dict(x, disconnect=rnd.choice([0, len(x["sched"]) // 2])) for x in scheds if any(x["expires"].values())]
         scheds = rnd.sample(d, min(len(d), 150 if quick else 1500))
@@ -98,7 +102,7 @@ def execute(prop, tier, seed, sc, topo, disconnect=False):
         seen.add(key)
         viol += 1
         o = x["observed"]
-        path = write_replay(prop, "approval_%d" % viol, {"property": prop, "config": {k: o[k] for k in ("verdict", "expires", "sched", "disconnect")},
+        path = write_replay(prop, "approval_%d" % viol, {"property": prop, "config": dict({k: o[k] for k in ("verdict", "expires", "sched", "disconnect")}, splittimer=o.get("splittimer", 0), late=o.get("late", {})),
                             "defects": x["defects"], "observed": {k: o[k] for k in ("outcomes", "presented", "data", "afterdisc", "panic", "realised")},
                             "how": "harness approval-replay"})
         print("VIOLATION property=%s replay=%s" % (prop, path))
